@@ -325,9 +325,36 @@ func r01Eval(sh *kvShape, fn *ssa.Function, nameP, flagP *ssa.Parameter, flag in
 						found := sit.parent != "missing"
 						return found == eq, true
 					}
-					// errors of anything else (store writes, truncation of a regular file): fault-free evaluation
+					// errors of anything else (store writes, truncation of a regular file): fault-free evaluation —
+					// except an error built from one that is known non-nil on this path (a wrapping call around the
+					// look-up's error or around a sentinel), which is non-nil
 					if ssax.IsErrorType(v.Type()) {
-						if cl := callProducing(s.Resolve(v)); cl != nil && !(sit.target == "dir" && s.Counts["truncdir"] == 1) {
+						rv := s.Resolve(v)
+						if ssax.IsNilConst(rv) {
+							return eq, true
+						}
+						if cl := callProducing(rv); cl != nil && !(sit.target == "dir" && s.Counts["truncdir"] == 1) {
+							for _, a := range cl.Call.Args {
+								if !ssax.IsErrorType(a.Type()) {
+									continue
+								}
+								ra := s.Resolve(a)
+								nonNil := false
+								switch assoc(ra) {
+								case "target":
+									nonNil = sit.target == "missing"
+								case "parent":
+									nonNil = sit.parent == "missing"
+								}
+								if u, ok := ssax.Unwrap(ra).(*ssa.UnOp); ok {
+									if _, isGlobal := u.X.(*ssa.Global); isGlobal {
+										nonNil = true // a sentinel
+									}
+								}
+								if nonNil {
+									return !eq, true
+								}
+							}
 							return eq, true
 						}
 					}
@@ -1262,47 +1289,53 @@ func r01TimesComparedByValue(c *core.Ctx, p *load.Program) {
 // the new name answered ErrNotExist: os.Rename refuses a directory onto an existing regular file (ENOTDIR) and onto a
 // non-empty directory; replacing the file's record by the directory loses the file and moves the children below it.
 func r01DirOntoAbsentOnly(c *core.Ctx, p *load.Program, sh *kvShape) {
-	fn := sh.methods["Rename"]
-	if fn == nil || len(fn.Params) < 3 {
+	root := sh.methods["Rename"]
+	if root == nil || len(root.Params) < 3 {
 		c.Hard("anchor: keyvalue.FS.Rename")
 		return
 	}
-	newname := fn.Params[2]
 	n := 0
-	ord := ordinals{}
-	ssax.Instrs(fn, func(ins ssa.Instruction) {
-		cl, ok := ins.(*ssa.Call)
-		if !ok {
-			return
+	for _, body := range opBodies(root) {
+		fn := body.fn
+		newname := body.param(root.Params[2])
+		if newname == nil || (body.call != nil && hasKey(sh.setFns, fn)) {
+			continue // the store primitives forward the name, they are not part of the operation's logic
 		}
-		callee := ssax.StaticCallee(cl)
-		if callee == nil || !hasKey(sh.setFns, callee) {
-			return
-		}
-		pi := sh.setFns[callee]
-		if cl.Call.Args[pi] != ssa.Value(newname) || ssax.IsNilConst(cl.Call.Args[pi+1]) {
-			return
-		}
-		// the file branch (IsDir() of the old info known false) moves a file: judged by R01.8/R03.5
-		fileBranch, absent := false, false
-		for _, f := range ssax.FactsAtInstr(cl) {
-			if ic, ok := f.Cond.(*ssa.Call); ok && isIsDirCall(ic) && !f.Val {
-				fileBranch = true
+		ord := ordinals{}
+		ssax.Instrs(fn, func(ins ssa.Instruction) {
+			cl, ok := ins.(*ssa.Call)
+			if !ok {
+				return
 			}
-			if ev, sent, is := isErrorsIs(f.Cond); is && f.Val && sent == "ErrNotExist" {
-				if lp := sh.lookupPathOf(ev, 0); lp != nil && lp == ssa.Value(newname) {
-					absent = true
+			callee := ssax.StaticCallee(cl)
+			if callee == nil || !hasKey(sh.setFns, callee) {
+				return
+			}
+			pi := sh.setFns[callee]
+			if cl.Call.Args[pi] != ssa.Value(newname) || ssax.IsNilConst(cl.Call.Args[pi+1]) {
+				return
+			}
+			// the file branch (IsDir() of the old info known false) moves a file: judged by R01.8/R03.5
+			fileBranch, absent := false, false
+			for _, f := range ssax.FactsAtInstr(cl) {
+				if ic, ok := f.Cond.(*ssa.Call); ok && isIsDirCall(ic) && !f.Val {
+					fileBranch = true
+				}
+				if ev, sent, is := isErrorsIs(f.Cond); is && f.Val && sent == "ErrNotExist" {
+					if lp := sh.lookupPathOf(ev, 0); lp != nil && lp == ssa.Value(newname) {
+						absent = true
+					}
 				}
 			}
-		}
-		if fileBranch {
-			return
-		}
-		n++
-		key := fname(fn) + "|" + ord.next("directory-stored-only-where-the-new-name-is-absent")
-		c.Check(absent, "R01.13", key, p.Pos(cl.Pos()), "the directory record is stored on the ErrNotExist edge of the look-up of the new name",
-			fmt.Sprintf("%s stores a directory's record under the new name on a path on which the new name was not found absent: a directory renamed onto an existing regular file replaces the file's record (os: ENOTDIR, tree unchanged) and its children move below what was a file", fname(fn)))
-	})
+			if fileBranch {
+				return
+			}
+			n++
+			key := fname(fn) + "|" + ord.next("directory-stored-only-where-the-new-name-is-absent")
+			c.Check(absent, "R01.13", key, p.Pos(cl.Pos()), "the directory record is stored on the ErrNotExist edge of the look-up of the new name",
+				fmt.Sprintf("%s stores a directory's record under the new name on a path on which the new name was not found absent: a directory renamed onto an existing regular file replaces the file's record (os: ENOTDIR, tree unchanged) and its children move below what was a file", fname(fn)))
+		})
+	}
 	if n == 0 {
 		c.Hard("anchor: store of the directory record under the new name in keyvalue.FS.Rename")
 	}
